@@ -364,7 +364,10 @@ def structure_aware(rng, spec):
                         ("bro-17-fields", [gb.gen_block(rng, 17, tiny=True)["raw"].hex()]),
                         ("bro-nested-lists", [rq.rlp_encode([[b"\x01"]] * 19).hex()]),
                         ("bro-cb-short", [rq.rlp_encode([b"\x01"] * 19).hex()]),
-                        ("bro-trailing", [bro + "00"]), ("bro-00", ["00"]), ("bro-c0", ["c0"])]:
+                        ("bro-trailing", [bro + "00"]), ("bro-00", ["00"]), ("bro-c0", ["c0"])] + [
+                        # (an RLP *string* whose length is a header's field count)
+                        ("bro-rlp-string-of-%d-bytes" % n_, [rq.rlp_encode(bytes(range(n_))).hex()])
+                        for n_ in (16, 17, 18, 19, 20, 21)]:
             r = copy.deepcopy(a)
             r["brothers"][0] = bl
             yield "leaf:advance:%s" % lab, v1, r
@@ -408,6 +411,11 @@ def structure_aware(rng, spec):
             for lab, blk in [("blk-nothex", "zz"), ("blk-odd", "abc"), ("blk-empty", ""),
                              ("blk-not-rlp", "aabbcc"), ("blk-rlp-string", "83aabbcc"),
                              ("blk-c0", "c0"), ("blk-nested", rq.rlp_encode([[b"\x01"]] * 19).hex()),
+                             ] + [("blk-rlp-string-of-%d-bytes" % n_,
+                                   rq.rlp_encode(bytes(range(1, n_ + 1))).hex())
+                                  for n_ in (16, 17, 18, 19, 20, 21)] + [
+                             # (an RLP string whose length is a header's field count; also
+                             # as the second block, after a good one)
                              ("blk-16", rq.rlp_encode([b"\x01"] * 16).hex()),
                              ("blk-21", rq.rlp_encode([b"\x01"] * 21).hex()),
                              ("blk-cb-short", rq.rlp_encode([b"\x01"] * 19).hex()),
